@@ -80,6 +80,9 @@ pub struct BbCase {
 	/// key file present before the first run: none | garbage | empty | usable
 	#[serde(default)]
 	pub prekey: String,
+	/// > 0: a file-pre-create hook of the certificate installs a placeholder of about this many bytes at {{ file_path }}
+	#[serde(default)]
+	pub placeholder: usize,
 }
 
 fn bb_strategy() -> impl Strategy<Value = BbCase> {
@@ -97,8 +100,9 @@ fn bb_strategy() -> impl Strategy<Value = BbCase> {
 		proptest::collection::vec(1usize..=4, 1..=2),
 		any::<bool>(),
 		prop_oneof![3 => Just("none"), 1 => Just("garbage"), 1 => Just("empty"), 1 => Just("usable")],
+		prop_oneof![3 => Just(0usize), 1 => 200usize..12000],
 	)
-		.prop_map(|(kt, chains, nif, c1, c2, chains2, kp_reuse, prekey)| BbCase { key_type: kt.to_string(), chains, name_in_format: nif, contacts1: c1, contacts2: c2, chains2, kp_reuse, prekey: prekey.to_string() })
+		.prop_map(|(kt, chains, nif, c1, c2, chains2, kp_reuse, prekey, placeholder)| BbCase { key_type: kt.to_string(), chains, name_in_format: nif, contacts1: c1, contacts2: c2, chains2, kp_reuse, prekey: prekey.to_string(), placeholder })
 }
 
 fn check_post_files(rec: &crate::daemon::HookRecord, order: &crate::mockca::server::OrderRec, what: &str) -> Result<(), (String, String)> {
@@ -183,14 +187,21 @@ fn exec_bb_in(case: &BbCase, acmed: &std::path::Path, dir: &std::path::Path) -> 
 		Err(e) => return Outcome::Infra(e),
 	};
 	let fmt = if case.name_in_format { "{{ name }}_{{ key_type }}.{{ file_type }}.{{ ext }}" } else { "fixed.{{ file_type }}.{{ ext }}" };
+	let mut hook_defs = bb::std_hooks(&coll.sock);
+	let mut cert_hooks = vec!["rec-http-01", "rec-http-01-clean", "rec-post"];
+	if case.placeholder > 0 {
+		hook_defs.push(json!({"name": "placeholder", "type": ["file-pre-create"], "cmd": build::hookrec_bin().display().to_string(),
+			"args": [coll.sock.display().to_string(), "placeholder:c1", "exit:0", "--fill", "{{ file_path }}", case.placeholder.to_string(), "--"]}));
+		cert_hooks.insert(0, "placeholder");
+	}
 	let mk_cfg = |contacts: &[String]| {
 		json!({
 			"global": lay.global(),
 			"endpoint": [{"name": "e1", "url": ca.directory_url(), "tos_agreed": true}],
 			"account": [{"name": "a1", "contacts": contacts.iter().map(|c| json!({"mailto": c})).collect::<Vec<_>>(), "env": {bb::ACCT_ENV: "a1"}}],
-			"hook": bb::std_hooks(&coll.sock),
+			"hook": hook_defs,
 			"certificate": [{"name": "c1", "account": "a1", "endpoint": "e1", "key_type": case.key_type, "file_name_format": fmt, "kp_reuse": case.kp_reuse,
-				"hooks": ["rec-http-01", "rec-http-01-clean", "rec-post"], "env": {bb::CERT_ENV: "c1"},
+				"hooks": cert_hooks, "env": {bb::CERT_ENV: "c1"},
 				"identifiers": [{"dns": "c02.example.test", "challenge": "http-01"}]}],
 		})
 	};
@@ -267,7 +278,10 @@ fn exec_bb_in(case: &BbCase, acmed: &std::path::Path, dir: &std::path::Path) -> 
 	if acct_shrank {
 		classes.push("account-file-shrank".into());
 	}
-	Outcome::pass(shrinks > 0 || acct_shrank, classes)
+	if case.placeholder > 0 {
+		classes.push("placeholder-installed-by-pre-create-hook".into());
+	}
+	Outcome::pass(shrinks > 0 || acct_shrank || case.placeholder > 0, classes)
 }
 
 // ------------------------------------------------ probe write histories
